@@ -57,6 +57,19 @@ CHECKS = {
                      'reported key set is exactly the set of keys with a member row, and the unsliced result is identical with and without slicers - for single-feature, cross, '
                      'multiple, restricted-value, fan-out, replace-style (numpy columns) and intra-example mask slicers, stacked aggregates (incl. disable_slicing) and every '
                      'composition of the rows into batches. Bounded (3 rows quick / 4 thorough, small feature domains).'),
+    'C08': dict(engine='xh', level='other', design_ref='DESIGN.md#c08',
+                text='Operator chains (select/apply/assign/filter/batch/sink, all key shapes) are built with the real TreeTransform and run on symbolic record streams; '
+                     'CrossHair/z3 proves on all paths that the emitted stream equals a reference interpreter, that assign adds exactly the named keys and shares every other '
+                     'object, that caller records are unchanged, that sinks see every record once and are closed once also when the stream faults, and that key sets are '
+                     'rejected at build time iff the reference predicate says so. Bounded: sequences <=2 (quick) / <=3 (thorough) operators, <=3 records.'),
+    'C17': dict(engine='xh', level='other', design_ref='DESIGN.md#c17',
+                text='LruCache as one inductive step from an arbitrary valid state (keys/recency/counters symbolic) against a reference model incl. the representation invariant, '
+                     'bounded histories with clear; lazy expression skeletons (<=2-3 productions) with symbolic integer leaves and symbolic cache/lazy flags: materialised value == eager '
+                     'value (also after a pickle round trip), call counts, identity while cached, fresh after clear_cache, real 128/1024 bounds, missing-object error. Bounded.'),
+    'C18': dict(engine='xh', level='other', design_ref='DESIGN.md#c18',
+                text='Trees are built by a recursive builder driven by symbolic choice ints (depth 2 quick / 3 thorough) with symbolic int leaves; CrossHair/z3 proves on all paths '
+                     'get-after-set, the frame condition with object identity, non-mutation and sharing of untouched sub-trees, no-op sets, leaf enumeration, aligned multi-key reads, '
+                     'apply over leaves only, special keys (SELF, SKIP, fresh keys, index append) and two-step histories against an independent reference. Bounded.'),
 }
 NA = {}
 PENDING = 'check not built yet (see DESIGN.md build order)'
